@@ -16,15 +16,16 @@ use vx_kit::{guard, json, Check, Level};
 
 const TITLES: &[&str] = &["A", "A B", "a.b", "ABCDEFGHIJKLMNOP", "A:B", " A ", "[A]", "STORE-SCP_1", ""];
 
-fn v4s() -> Vec<SocketAddrV4> {
-    let o = [0u8, 1, 127, 255];
-    let ports = [0u16, 1, 104, 65535];
+fn v4s(thorough: bool) -> Vec<SocketAddrV4> {
+    let o: &[u8] = if thorough { &[0, 1, 9, 10, 99, 100, 127, 128, 199, 200, 254, 255] } else { &[0, 1, 127, 255] };
+    let ports: &[u16] = if thorough { &[0, 1, 9, 10, 104, 9999, 10000, 11112, 65535] } else { &[0, 1, 104, 65535] };
+    let (o, ports) = (o.to_vec(), ports.to_vec());
     let mut v = vec![];
-    for a in o {
-        for b in o {
-            for c in o {
-                for d in o {
-                    for p in ports {
+    for &a in &o {
+        for &b in &o {
+            for &c in &o {
+                for &d in &o {
+                    for &p in &ports {
                         v.push(SocketAddrV4::new(Ipv4Addr::new(a, b, c, d), p));
                     }
                 }
@@ -178,19 +179,20 @@ macro_rules! run_type {
 
 fn main() {
     let check = Check::from_args("C36", Level::Exploration);
-    check.set_rule("titles {A, 'A B', a.b, 16 chars, A:B, ' A ', [A], STORE-SCP_1, empty} x addresses {every SocketAddrV4 with octets in {0,1,127,255} and port in {0,1,104,65535}; 7 IPv6 addresses x 4 ports; 8 host:port strings incl. one containing '@'} x {FullAeAddr, AeAddr with title, AeAddr without title} x T in {SocketAddr, SocketAddrV4, SocketAddrV6, String}; a case is (type, kind, title, address); non-trivial = printed and parsed");
+    check.set_rule("titles {A, 'A B', a.b, 16 chars, A:B, ' A ', [A], STORE-SCP_1, empty} x addresses {every SocketAddrV4 with octets in {0,1,127,255} and port in {0,1,104,65535} (thorough: 12 octet values incl. every digit-count boundary x 9 ports); 7 IPv6 addresses x 4 ports; 8 host:port strings incl. one containing '@'} x {FullAeAddr, AeAddr with title, AeAddr without title} x T in {SocketAddr, SocketAddrV4, SocketAddrV6, String}; a case is (type, kind, title, address); non-trivial = printed and parsed");
     check.assume("std's Display/FromStr of socket addresses; the documented syntax {ae_title}@{address}");
+    let thorough = check.thorough();
     // four shards, one per address type
     check.par_range(4, |l, i| match i {
         0 => {
-            let mut a: Vec<SocketAddr> = v4s().into_iter().map(SocketAddr::V4).collect();
+            let mut a: Vec<SocketAddr> = v4s(thorough).into_iter().map(SocketAddr::V4).collect();
             a.extend(v6s().into_iter().map(SocketAddr::V6));
             run_type!(l, "SocketAddr", SocketAddr, a)
         }
-        1 => run_type!(l, "SocketAddrV4", SocketAddrV4, v4s()),
+        1 => run_type!(l, "SocketAddrV4", SocketAddrV4, v4s(thorough)),
         2 => run_type!(l, "SocketAddrV6", SocketAddrV6, v6s()),
         _ => run_type!(l, "String", String, strings()),
     });
-    check.extra("universe", json!({"titles": TITLES.len(), "v4": v4s().len(), "v6": v6s().len(), "strings": strings().len()}));
+    check.extra("universe", json!({"titles": TITLES.len(), "v4": v4s(thorough).len(), "v6": v6s().len(), "strings": strings().len()}));
     check.finish();
 }
